@@ -83,11 +83,38 @@ def same_length_variant(rng, a):
     return b"\n".join(out)
 
 
-def one_case(ctx, a, b, check_model=True, same_mtime=False):
+def decodable(x):
+    try:
+        x.decode("utf-8")
+        return True
+    except UnicodeDecodeError:
+        return False
+
+
+EXTS = [".h", ".h", ".cpp", ".py", ".cs", ".c", ".cc", ".hpp", ".java", ".txt", ""]
+
+
+def one_case(ctx, a, b, check_model=True, same_mtime=False, exts=(".h", ".h")):
+    if not (decodable(a) and decodable(b)):
+        # a file that cannot be read as text: FileSync may refuse (raise), but whatever it does, it may not rewrite anything
+        with scratch() as d:
+            os.makedirs(os.path.join(d, "s"))
+            A, B = os.path.join(d, "A" + exts[0]), os.path.join(d, "s", "B" + exts[1])
+            open(A, "wb").write(a)
+            open(B, "wb").write(b)
+            try:
+                with kj.quiet():
+                    Generate.FileSync(A, B)
+            except Exception:  # noqa
+                pass
+            ctx.count("undecodable_pairs")
+            if open(B, "rb").read() != b or open(A, "rb").read() != a:
+                return {"a": a, "b": b, "exts": list(exts), "detail": "a file that is not valid UTF-8 was rewritten by FileSync (bytes changed)", "finding_key": "sync"}
+        return None
     with scratch() as d:
         os.makedirs(os.path.join(d, "s"))
-        A = os.path.join(d, "A.h")
-        B = os.path.join(d, "s", "B.h")
+        A = os.path.join(d, "A" + exts[0])
+        B = os.path.join(d, "s", "B" + exts[1])
         open(A, "wb").write(a)
         open(B, "wb").write(b)
         if same_mtime:     # files restored from an archive / copied with their timestamps: metadata says nothing about content
@@ -113,7 +140,7 @@ def one_case(ctx, a, b, check_model=True, same_mtime=False):
         with kj.quiet():
             Generate.FileSync(A, B)
         b2 = open(B, "rb").read()
-        others = sorted(p for p in kj.read_tree(d) if p not in ("A.h", "s/B.h") and not p.endswith(".LostCode.txt"))
+        others = sorted(p for p in kj.read_tree(d) if p not in ("A" + exts[0], "s/B" + exts[1]) and not p.endswith(".LostCode.txt"))
     if check_model and ctx.km and trace is not None:
         mops = [[k.decode(), x.decode("utf-8", "surrogateescape"), y.decode("utf-8", "surrogateescape")] for k, x, y in ctx.km.call("filesync_ops", Bp, a, b)]
         ok = ctx.km.call("filesync_jobs_ok", Bp, a, b) == b"1"
@@ -190,9 +217,16 @@ def run(ctx):
             b = same_length_variant(rng, a)
             nb = na
         sm = rng.random() < 0.3
-        res = one_case(ctx, a, b, same_mtime=sm)
+        if rng.random() < 0.08:       # bytes of another encoding (Latin-1 copyright line) in one of the two files
+            if rng.random() < 0.6:
+                b = b"// Copyright \xa9 2015 J\xfcrgen\n" + b
+            else:
+                a = a + b"// gr\xfc\xdfe\n"
+        exts = (rng.choice(EXTS), rng.choice(EXTS))
+        res = one_case(ctx, a, b, same_mtime=sm, exts=exts)
         if res:
             res["same_mtime"] = sm
+            res["exts"] = list(exts)
         shared = set(na) & set(nb)
         ctx.case((a, b), nontrivial=bool(shared))
         ctx.count("shared_%d" % len(shared))
@@ -208,4 +242,4 @@ def replay(ctx, data):
         return False
     if data.get("multi"):
         return multi_case(ctx, [tuple(x) for x in data["pairs"]]) is None
-    return one_case(ctx, data["a"], data["b"], check_model=False, same_mtime=bool(data.get("same_mtime"))) is None
+    return one_case(ctx, data["a"], data["b"], check_model=False, same_mtime=bool(data.get("same_mtime")), exts=tuple(data.get("exts") or (".h", ".h"))) is None
